@@ -15,6 +15,7 @@ class Budget(bt.Algo):
         if target.now not in self.seen.index: return False
         ok = int(self.seen.sum()) < 2
         self.seen.loc[target.now] = True
+        target.perm["entered"] = target.perm.get("entered", 0) + 1          # per-strategy state kept by an algo
         return ok
 def mk():
     return bt.Strategy("s", [bt.algos.RunWeekly(), Budget(), bt.algos.SelectAll(), bt.algos.WeighEqually(), bt.algos.Rebalance()], children=["alpha", "zeta", "k", "x9", "mid"])
@@ -48,6 +49,8 @@ for it in range(N):
     if not data.equals(d0): fails.append(dict(clause="input-frame-mutated"))
     if s.children and any(getattr(c, "_position", 0) != 0 for c in s.children.values()): fails.append(dict(clause="template-mutated"))
     if not t1.strategy.prices.equals(t2.strategy.prices): fails.append(dict(clause="same-template-backtests-differ"))
+    if s.perm: fails.append(dict(clause="template-mutated", what="perm of the template was written by a backtest", perm=repr(s.perm)[:100]))
+    if t1.strategy.perm.get("entered") != t2.strategy.perm.get("entered") or t1.strategy.perm is t2.strategy.perm: fails.append(dict(clause="same-template-backtests-differ", what="perm shared or counted across backtests", a=repr(t1.strategy.perm)[:80], b=repr(t2.strategy.perm)[:80]))
     if bool(s.stack.algos[1].seen.any()): fails.append(dict(clause="template-mutated", what="a frame held by an algo of the template was written by a backtest"))
     if float(t1.strategy.fees.abs().sum()) != 0.0: fails.append(dict(clause="backtest-inherits-cost-model-of-a-sibling-backtest", fees=float(t1.strategy.fees.sum())))
     if {k: id(v) for k, v in extra.items()} != extra_ids: fails.append(dict(clause="additional-data-dict-mutated-by-run"))
